@@ -147,7 +147,8 @@ claim("C16", "DESIGN.md 5 C16",
       "Update replaces an existing token only if the caller's tag equals the tag computed in the same critical section after (re)loading the file, and adds a new one only under the empty tag; Delete likewise; "
       "rewrite touches the token file only by removing it when the table is empty or by renaming over it a temporary file of the same directory after every token was encoded and the file closed without error, clean-ups remove only the temporary file; "
       "add changes the table only after the line was appended; a failed load forgets the table; the table never holds nil entries (lock invariant assumed at Lock, re-proved at every return); "
-      "the roll-back after a failed rewrite can no longer hit a dropped table (nil-map panic: repaired).",
+      "the roll-back after a failed rewrite can no longer hit a dropped table (nil-map panic: repaired); load forgets the table when the file has vanished or cannot be opened (revocation by removing the file is final); "
+      "Expire, like Update and Delete, forgets the table when its sweep cannot be written (it kept the swept table: memory and file disagreed, repaired); the API handler reaches Update/Delete of a token only after the request's If-Match/If-None-Match were compared with the tag read together with the token, and hands that tag on.",
       "Assumed: os.Rename atomic, append-mode write of one line atomic enough for add, JSON encode/decode faithful, the version tag (size, mtime) distinguishes versions (stated in the property). "
       "Not decided: equality of the honoured set with what a fresh process reads (needs a model of the file contents: only the order of operations on the file is proved); an external edit DURING a critical section (outside the stated quantifier) can make rewrite reload the table and drop the pending change - "
       "visible in the contract of rewrite (table afterwards: same, newly read, or nil) and described in DESIGN.md; durability without fsync in rewrite (rewriteDescriptionFile syncs, the token store does not).")
